@@ -407,15 +407,33 @@ theorem mgetNext_resStep {b b0 : BState} (i : Nat) (ks : List Nat) (acc : List (
   unfold mgetNext
   split
   · exact .fin trivial hr rfl
-  · split
-    · exact .fin trivial hr rfl
-    · exact .set trivial hr
+  · exact .set trivial hr
+
+/-- the first action of a multi-key read never panics -/
+theorem mgetStart_resStep {b b0 : BState} {ok : Prop} (i : Nat) (ks : List Nat) (iter : Bool) (h : ok)
+    (hr : b0.res = b.res) : ResStep b i ok (mgetStart b0 i ks iter) := by
+  unfold mgetStart
+  split
+  · exact .fin h hr rfl
+  · exact .set h hr
+
+/-- a load of the shutdown flag inside a multi-key read never panics -/
+theorem mgetFlagAct_resStep {b b0 : BState} (i : Nat) (outer : Bool) (ks : List Nat) (acc : List (Option Nat))
+    (iter : Bool) (hr : b0.res = b.res) : ResStep b i True (mgetFlagAct b0 i outer ks acc iter) := by
+  rcases mgetFlagAct_spec b0 i outer ks acc iter with ⟨_, e⟩ | ⟨_, _, _, _, _, e⟩ | ⟨_, _, _, _, _, e⟩ |
+    ⟨_, _, _, _, _, e⟩ <;> rw [e]
+  · exact .fin trivial hr rfl
+  · exact .set trivial hr
+  · exact mgetNext_resStep _ _ _ _ hr
+  · exact .set trivial hr
 
 /-- closes a leaf of the case analysis of `clientAct` at a position without a panic site -/
 macro "res_leaf" : tactic => `(tactic| first
   | exact ResStep.move trivial rfl
   | exact ResStep.ret trivial rfl rfl
-  | exact mgetNext_resStep _ _ _ _ rfl)
+  | exact mgetNext_resStep _ _ _ _ rfl
+  | exact mgetStart_resStep _ _ _ trivial rfl
+  | exact mgetFlagAct_resStep _ _ _ _ _ rfl)
 
 set_option hygiene false in
 /-- the whole case analysis at a position without a panic site -/
@@ -447,6 +465,7 @@ theorem clientAct_res {b b' : BState} {i : Nat} {o o' : Oracle} (h : clientAct b
         all_goals first
           | exact ResStep.move hok rfl
           | exact ResStep.ret hok rfl rfl
+          | exact mgetStart_resStep _ _ _ hok rfl
       · rename_i hsh
         simp only [Bool.not_eq_true] at hsh
         cases r <;> simp only [] at h
@@ -582,6 +601,7 @@ theorem clientAct_res {b b' : BState} {i : Nat} {o o' : Oracle} (h : clientAct b
     | shutTtlClear => res_pos h
     | mgetStore k ks acc iter => res_pos h
     | mgetPool k v ks acc iter => res_pos h
+    | mgetFlag outer ks acc iter => res_pos h
 
 /-- What a client action does to the liveness flags, the sketch and the buffer queue (`ac`: the client stands inside
     `shutdown()`, past its compare-and-swap): it never touches the worker's mode or the liveness flags of the sweeper
@@ -636,10 +656,16 @@ theorem upAfterIndex_gframe {g : State} {b0 : BState} {ac : Bool} (i id : Nat) (
 
 theorem mgetNext_gframe {g : State} {b0 : BState} {ac : Bool} (i : Nat) (ks : List Nat) (acc : List (Option Nat))
     (iter : Bool) (hg : GFrame g b0.g ac) : GFrame g (mgetNext b0 i ks acc iter).g ac := by
-  unfold mgetNext
-  split
-  · exact hg
-  · split <;> exact hg
+  rw [mgetNext_g]; exact hg
+
+theorem mgetStart_gframe {g : State} {b0 : BState} {ac : Bool} (i : Nat) (ks : List Nat) (iter : Bool)
+    (hg : GFrame g b0.g ac) : GFrame g (mgetStart b0 i ks iter).g ac := by
+  rw [mgetStart_g]; exact hg
+
+theorem mgetFlagAct_gframe {g : State} {b0 : BState} {ac : Bool} (i : Nat) (outer : Bool) (ks : List Nat)
+    (acc : List (Option Nat)) (iter : Bool) (hg : GFrame g b0.g ac) :
+    GFrame g (mgetFlagAct b0 i outer ks acc iter).g ac := by
+  rw [mgetFlagAct_g]; exact hg
 
 set_option hygiene false in
 /-- closes a leaf of the case analysis of `clientAct` for `clientAct_gframe` -/
@@ -648,6 +674,8 @@ macro "gf_leaf" : tactic => `(tactic| first
   | exact poolAdd_gframe _ (by assumption)
   | exact mgetNext_gframe _ _ _ _ (GFrame.refl _ _)
   | exact mgetNext_gframe _ _ _ _ (poolAdd_gframe _ (by assumption))
+  | exact mgetStart_gframe _ _ _ (GFrame.refl _ _)
+  | exact mgetFlagAct_gframe _ _ _ _ _ (GFrame.refl _ _)
   | exact upAfterIndex_gframe _ _ _ (GFrame.refl _ _)
   | exact GFrame.same rfl rfl rfl rfl rfl rfl rfl
   | exact upAfterIndex_gframe _ _ _ (GFrame.same rfl rfl rfl rfl rfl rfl rfl)
